@@ -1,8 +1,15 @@
 // C07 conformance harness: runs scripted test programs through the real TestRegistry / UtestShell / Utest lifecycle
 // with the real MemoryLeakWarningPlugin installed (private detector made the global one, so the real operator
 // new[] / cpputest_malloc / delete[] / free used by the scripted tests are tracked by it), and logs one ndjson line
-// per script line.  Script (TSV): begin | end | final | reset | <op> <phase> <arg>   with op in alloc, free, expect,
-// ignore, fail and phase in s (setup), b (body), t (teardown), o (between tests).
+// per script line.  Script (TSV): begin | end | final | reset | <op> <phase> <arg> <arg2> <bk> <fam>   with op in alloc,
+// free, realloc (arg = old id, arg2 = id of the result), rfail (a realloc that fails: out of memory), expect, ignore, fail
+// and phase in s (setup), b (body), t (teardown), o (between tests).  `end o <id> 0 <bk>`: id # 0 = the test output
+// keeps a tracked copy (block id) of a leak failure it is given.
+// Placement: the current new[] / malloc allocators of the library are arena allocators: bk = 0 lets the real malloc
+// choose the address, bk = k > 0 puts the block at an address of the k-th designated bucket of the detector's hash
+// table (address % MEMORY_LEAK_HASH_TABLE_SIZE), so that the scripts decide which blocks share a chain and in which
+// order.  fam: 0 = operator new[] / delete[], 1 = cpputest_malloc / realloc / free.  The calls themselves are the real
+// global ones.
 // Usage: leakplugin <script.tsv> <log.ndjson>
 #include "vh.h"
 #include <new>
@@ -15,6 +22,7 @@
 #include "CppUTest/MemoryLeakWarningPlugin.h"
 #include "CppUTest/TestMemoryAllocator.h"
 #include "CppUTest/TestHarness_c.h"
+#include "CppUTest/PlatformSpecificFunctions.h"
 #undef new
 #undef malloc
 #undef free
@@ -23,9 +31,11 @@ static void ON() { MemoryLeakWarningPlugin::turnOnDefaultNotThreadSafeNewDeleteO
 static void OFF() { MemoryLeakWarningPlugin::turnOffNewDeleteOverloads(); }
 
 // ---- everything below is preallocated: nothing may allocate through operator new while a run is in progress
-enum OpKind { K_BEGIN, K_END, K_FINAL, K_ALLOC, K_FREE, K_EXPECT, K_IGNORE, K_FAIL };
+enum OpKind { K_BEGIN, K_END, K_FINAL, K_ALLOC, K_FREE, K_EXPECT, K_IGNORE, K_FAIL, K_REALLOC, K_RFAIL };
 struct Line {
-    OpKind kind; char ph; int arg;
+    OpKind kind; char ph; int arg; int arg2; int bk; int fam;
+    int res;          // realloc / rfail: 1 = a block came back, 2 = NULL
+    int kept;         // end: tracked copies of leak failures allocated by the output
     // results
     bool ran; long chk, all; long failures;
     int leakfail; long own; long stated; bool trunc; bool parsed;
@@ -35,33 +45,113 @@ struct Line {
 static const int MAXL = 60000;
 static Line* lines;          // lines of the current execution
 static int nlines;
-struct Blk { void* p; unsigned num; bool isMalloc; bool live; };
+struct Blk { void* p; unsigned num; bool isMalloc; bool live; size_t size; };
 static const int MAXB = 100000;
 static Blk* blks;            // indexed by script id
 static MemoryLeakDetector* det;
 static MemoryLeakWarningPlugin* plugin;
 static TestResult* result_;
 
+
+// ---- placement: an arena of slots; inside a slot every bucket of the detector's table can be hit at an 8-aligned offset
+static const int NSLOT = 8192;
+static const size_t SLOT = 1024;
+static char* arena;
+static int* freeSlots;
+static int nfree;
+static char* g_next = NULL;          // address the next underlying allocation / re-allocation must return (NULL: real malloc)
+static bool g_realloc_fails = false; // the next underlying re-allocation is out of memory
+static size_t g_copy = 0;            // bytes of the old block a moving re-allocation carries over
+static void* (*real_realloc)(void*, size_t);
+static const int NBUCKETS = 6;
+static const size_t bucketOfChoice[NBUCKETS + 1] = { 0, 0, 1, MEMORY_LEAK_HASH_TABLE_SIZE - 1, 36, 2, MEMORY_LEAK_HASH_TABLE_SIZE - 2 };
+
+static bool in_arena(const void* p) { return (const char*) p >= arena && (const char*) p < arena + (size_t) NSLOT * SLOT; }
+static void slot_release(const void* p) { if (in_arena(p) && nfree < NSLOT) freeSlots[nfree++] = (int) (((const char*) p - arena) / SLOT); }
+static char* place(int bk)
+{
+    if (bk <= 0 || bk > NBUCKETS || nfree == 0) return NULL;
+    char* base = arena + (size_t) freeSlots[--nfree] * SLOT;
+    size_t prime = MEMORY_LEAK_HASH_TABLE_SIZE;
+    for (size_t off = 0; off < 8 * prime; off += 8)
+        if (((size_t) (base + off)) % prime == bucketOfChoice[bk]) return base + off;
+    abort();
+}
+static void unplace() { if (g_next) { slot_release(g_next); g_next = NULL; } }
+
+class ArenaAllocator : public TestMemoryAllocator
+{
+public:
+    ArenaAllocator(const char* n, const char* an, const char* fn) : TestMemoryAllocator(n, an, fn) {}
+    char* alloc_memory(size_t size, const char*, size_t) CPPUTEST_OVERRIDE
+    {
+        if (g_next) { char* r = g_next; g_next = NULL; return r; }
+        return (char*) malloc(size);
+    }
+    void free_memory(char* m, size_t, const char*, size_t) CPPUTEST_OVERRIDE { if (in_arena(m)) slot_release(m); else free(m); }
+    char* allocMemoryLeakNode(size_t size) CPPUTEST_OVERRIDE { return (char*) malloc(size); }
+    void freeMemoryLeakNode(char* m) CPPUTEST_OVERRIDE { free(m); }
+};
+static ArenaAllocator* arenaNewArray;
+static ArenaAllocator* arenaMalloc;
+
+static void* arena_realloc(void* old, size_t size)
+{
+    if (g_realloc_fails) { g_realloc_fails = false; return NULL; }
+    if (!g_next && !in_arena(old)) return real_realloc(old, size);
+    char* r = g_next ? g_next : (char*) malloc(size);
+    g_next = NULL;
+    if (old) {
+        memcpy(r, old, g_copy < size ? g_copy : size);
+        if (in_arena(old)) slot_release(old); else free(old);
+    }
+    return r;
+}
+
 struct FailRec { bool leak; char text[4200]; };
 static FailRec fails[8];
 static int nfails;
+
+static int maxid = 0;
+static int cur_end = -1;     // script line of the `end` of the running test
+
+// a fresh tracked block for script id `id`, through the real global operator new[] / cpputest_malloc
+static void tracked_alloc(int id, int bk, bool isMalloc, const char* file)
+{
+    Blk& b = blks[id];
+    if (id > maxid) maxid = id;
+    b.isMalloc = isMalloc;
+    b.num = det->getCurrentAllocationNumber();
+    b.size = 1 + (size_t) (id % 7);
+    g_next = place(bk);
+    b.p = isMalloc ? cpputest_malloc_location(b.size, "prog.c", (size_t) id) : ::operator new[](b.size, file, (size_t) id);
+    unplace();
+    memset(b.p, 'a' + id % 26, b.size);
+    b.live = true;
+}
 
 class RecOutput : public StringBufferTestOutput
 {
 public:
     void printFailure(const TestFailure& f) CPPUTEST_OVERRIDE
     {
+        bool leak = false;
         if (nfails < 8) {
             SimpleString msg = f.getMessage();      // (string buffers do not go through the detector)
             const char* m = msg.asCharString();
             strncpy(fails[nfails].text, m, sizeof fails[nfails].text - 1); fails[nfails].text[sizeof fails[nfails].text - 1] = 0;
-            fails[nfails].leak = strstr(m, "own check failed") == NULL;     // every failure that is not the scripted one comes from the plugin
+            leak = fails[nfails].leak = strstr(m, "own check failed") == NULL;     // every failure that is not the scripted one comes from the plugin
         }
         nfails++;
+        // an output that keeps what it is given (as the JUnit output keeps a copy of every failure): a tracked block
+        // allocated while the leak failure is being reported
+        if (leak && cur_end >= 0 && lines[cur_end].arg > 0 && lines[cur_end].kept == 0) {
+            tracked_alloc(lines[cur_end].arg, lines[cur_end].bk, false, "output.cpp");
+            lines[cur_end].kept++;
+        }
     }
 };
 
-static int maxid = 0;
 static int id_of_num(unsigned num)
 {
     for (int i = 0; i <= maxid && i < MAXB; i++) if (blks[i].p && blks[i].num == num) return i;
@@ -96,15 +186,29 @@ static void exec_op(Line& L)
 {
     L.ran = true;
     switch (L.kind) {
-    case K_ALLOC: {
+    case K_ALLOC:
+        tracked_alloc(L.arg, L.bk, L.fam == 1, "prog.cpp");
+        break;
+    case K_REALLOC:
+    case K_RFAIL: {
         Blk& b = blks[L.arg];
-        if (L.arg > maxid) maxid = L.arg;
-        b.isMalloc = (L.arg % 3 == 0);
-        b.num = det->getCurrentAllocationNumber();
-        size_t size = 1 + (size_t) (L.arg % 7);
-        b.p = b.isMalloc ? cpputest_malloc_location(size, "prog.c", (size_t) L.arg) : ::operator new[](size, "prog.cpp", (size_t) L.arg);
-        memset(b.p, 'a' + L.arg % 26, size);
-        b.live = true;
+        size_t size = 1 + (size_t) (L.arg2 % 7);
+        unsigned num = det->getCurrentAllocationNumber();
+        g_realloc_fails = (L.kind == K_RFAIL);
+        if (L.kind == K_REALLOC) g_next = place(L.bk);
+        g_copy = b.size;
+        void* r = cpputest_realloc_location(b.p, L.kind == K_RFAIL ? b.size + 100 : size, "prog.c", (size_t) (L.kind == K_RFAIL ? L.arg : L.arg2));
+        g_realloc_fails = false;
+        unplace();
+        L.res = r ? 1 : 2;
+        if (r) {
+            int nid = L.kind == K_REALLOC ? L.arg2 : L.arg;      // (a block coming back from `rfail` is for the validation to reject)
+            if (nid > maxid) maxid = nid;
+            b.live = false;
+            Blk& nb = blks[nid];
+            nb.p = r; nb.num = num; nb.isMalloc = true; nb.size = size; nb.live = true;
+            memset(nb.p, 'a' + nid % 26, size);
+        }
         break; }
     case K_FREE: {
         Blk& b = blks[L.arg];
@@ -156,6 +260,7 @@ public:
         for (int i = nextOutside; i < s.begin; i++) if (lines[i].kind >= K_ALLOC) exec_op(lines[i]);   // operations between tests
         lines[s.begin].ran = true; lines[s.begin].failures = (long) r.getFailureCount();
         nfails = 0;
+        cur_end = s.end;
     }
     void postTestAction(UtestShell& t, TestResult& r) CPPUTEST_OVERRIDE
     {
@@ -168,18 +273,21 @@ public:
         }
         if (nfails > 8) L.own += nfails - 8;
         nextOutside = s.end + 1;
+        cur_end = -1;
     }
 };
 
 static void emit(FILE* out, const Line& L)
 {
-    static const char* names[] = {"begin", "end", "final", "alloc", "free", "expect", "ignore", "fail"};
-    fprintf(out, "{\"op\":\"%s\",\"ph\":\"%c\",\"arg\":%d,\"ran\":%s", names[L.kind], L.ph, L.arg, L.ran ? "true" : "false");
+    static const char* names[] = {"begin", "end", "final", "alloc", "free", "expect", "ignore", "fail", "realloc", "rfail"};
+    static const char* results[] = {"", "moved", "null"};
+    fprintf(out, "{\"op\":\"%s\",\"ph\":\"%c\",\"arg\":%d,\"arg2\":%d,\"bk\":%d,\"fam\":%d,\"res\":\"%s\",\"ran\":%s", names[L.kind], L.ph, L.arg, L.arg2, L.bk,
+            L.fam, results[L.res], L.ran ? "true" : "false");
     if (L.kind >= K_ALLOC) fprintf(out, ",\"chk\":%ld,\"all\":%ld", L.chk, L.all);
     if (L.kind == K_BEGIN) fprintf(out, ",\"failures\":%ld", L.failures);
     if (L.kind == K_END || L.kind == K_FINAL) {
         if (!L.parsed) fprintf(out, ",\"repbad\":%s", vh_jstr(L.raw).c_str());
-        if (L.kind == K_END) fprintf(out, ",\"leakfail\":%d,\"own\":%ld,\"failures\":%ld", L.leakfail, L.own, L.failures);
+        if (L.kind == K_END) fprintf(out, ",\"leakfail\":%d,\"own\":%ld,\"failures\":%ld,\"kept\":%d", L.leakfail, L.own, L.failures, L.kept);
         fprintf(out, ",\"stated\":%ld,\"trunc\":%s,\"listed\":[", L.stated, L.trunc ? "true" : "false");
         for (int i = 0; i < L.nlisted; i++) fprintf(out, "%s%d", i ? "," : "", L.listed[i]);
         fprintf(out, "]");
@@ -192,6 +300,9 @@ static void run_execution(FILE* out)
     // fresh detector, plugin, registry, result for every execution
     for (int i = 0; i <= maxid && i < MAXB; i++) { blks[i].p = NULL; blks[i].live = false; }
     maxid = 0;
+    nfree = 0;
+    for (int i = NSLOT; i-- > 0;) freeSlots[nfree++] = i;
+    g_next = NULL; g_realloc_fails = false; cur_end = -1;
     MemoryLeakFailure* reporter = MemoryLeakWarningPlugin::getGlobalFailureReporter();
     det = new MemoryLeakDetector(reporter);
     MemoryLeakWarningPlugin::setGlobalDetector(det, reporter);
@@ -215,6 +326,9 @@ static void run_execution(FILE* out)
     TestRegistry* savedReg = TestRegistry::getCurrentRegistry();
     reg->setCurrentRegistry(reg);
 
+    setCurrentNewArrayAllocator(arenaNewArray);
+    setCurrentMallocAllocator(arenaMalloc);
+    PlatformSpecificRealloc = arena_realloc;
     ON();
     reg->runAllTests(*result_);
     // what follows the last test: operations between tests, final report
@@ -224,6 +338,9 @@ static void run_execution(FILE* out)
         else if (L.kind == K_FINAL) { L.ran = true; parse_report(plugin->FinalReport(0), L); }
     }
     OFF();
+    PlatformSpecificRealloc = real_realloc;
+    setCurrentNewArrayAllocatorToDefault();
+    setCurrentMallocAllocatorToDefault();
     reg->setCurrentRegistry(savedReg);
     for (int i = 0; i < nlines; i++) emit(out, lines[i]);
     // blocks still outstanding belong to the old detector; they are simply abandoned
@@ -241,6 +358,12 @@ int main(int argc, char** argv)
     vh_install(out);
     lines = (Line*) calloc(MAXL, sizeof(Line));
     blks = (Blk*) calloc(MAXB, sizeof(Blk));
+    freeSlots = (int*) calloc(NSLOT, sizeof(int));
+    arena = (char*) malloc((size_t) NSLOT * SLOT + 64);
+    arena = (char*) (((size_t) arena + 63) & ~(size_t) 63);
+    real_realloc = PlatformSpecificRealloc;
+    arenaNewArray = new ArenaAllocator("Arena New [] Allocator", "new []", "delete []");
+    arenaMalloc = new ArenaAllocator("Arena Malloc Allocator", "malloc", "free");
     nlines = 0;
     std::string line;
     bool any = false;
@@ -257,16 +380,18 @@ int main(int argc, char** argv)
             continue;
         }
         any = true;
-        while (f.size() < 3) f.push_back("");
+        while (f.size() < 6) f.push_back("");
         if (nlines >= MAXL) { fprintf(out, "{\"op\":\"harness-error\",\"what\":\"program too long\"}\n"); break; }
         Line& L = lines[nlines];
         memset(&L, 0, sizeof L);
         L.ph = f[1].empty() ? 'o' : f[1][0]; L.arg = atoi(f[2].c_str()); L.parsed = true;
+        L.arg2 = atoi(f[3].c_str()); L.bk = atoi(f[4].c_str()); L.fam = atoi(f[5].c_str());
         if (f[0] == "begin") L.kind = K_BEGIN; else if (f[0] == "end") L.kind = K_END; else if (f[0] == "final") L.kind = K_FINAL;
         else if (f[0] == "alloc") L.kind = K_ALLOC; else if (f[0] == "free") L.kind = K_FREE; else if (f[0] == "expect") L.kind = K_EXPECT;
         else if (f[0] == "ignore") L.kind = K_IGNORE; else if (f[0] == "fail") L.kind = K_FAIL;
+        else if (f[0] == "realloc") L.kind = K_REALLOC; else if (f[0] == "rfail") L.kind = K_RFAIL;
         else { fprintf(out, "{\"op\":\"harness-error\",\"what\":\"unknown op\"}\n"); break; }
-        if ((L.kind == K_ALLOC || L.kind == K_FREE) && (L.arg < 0 || L.arg >= MAXB)) { fprintf(out, "{\"op\":\"harness-error\",\"what\":\"bad id\"}\n"); break; }
+        if ((L.kind == K_ALLOC || L.kind == K_FREE || L.kind == K_REALLOC || L.kind == K_RFAIL || L.kind == K_END) && (L.arg < 0 || L.arg >= MAXB || L.arg2 < 0 || L.arg2 >= MAXB)) { fprintf(out, "{\"op\":\"harness-error\",\"what\":\"bad id\"}\n"); break; }
         nlines++;
     }
     fflush(out);
